@@ -5,6 +5,7 @@ import (
 	"encoding/json"
 	"errors"
 	"fmt"
+	"math"
 	"strings"
 	"testing"
 
@@ -38,6 +39,8 @@ type Case struct {
 	CodabarSE bool   `json:"codabar_start_end,omitempty"` // RETURN_CODABAR_START_END
 	Lengths   []int  `json:"allowed_lengths,omitempty"`   // ALLOWED_LENGTHS
 	GS1       bool   `json:"assume_gs1,omitempty"`
+	QRLevel   *int   `json:"qr_level,omitempty"` // transpose cases: 0..3 = L M Q H (default M)
+	QRMask    *int   `json:"qr_mask,omitempty"`  // transpose cases: forced mask pattern
 }
 
 func (c Case) hints() map[gozxing.DecodeHintType]interface{} {
@@ -96,11 +99,24 @@ func check(raw json.RawMessage) error {
 	}
 	desc := fmt.Sprintf("%s content=%q pad=%v scale=%d rot=%d mirror=%v tryharder=%v height=%d margin=%d callback=%v codabar_se=%v lengths=%v gs1=%v", c.Sym, c.Content, c.Pad, c.Scale, c.Rot*90, c.Mirror, c.TryHarder, c.Height, c.Margin, c.Callback, c.CodabarSE, c.Lengths, c.GS1)
 	if c.Positive == "transpose" {
-		code, err := encoder.Encoder_encode(c.Content, decoder.ErrorCorrectionLevel_M, nil)
+		level := decoder.ErrorCorrectionLevel_M
+		var eh map[gozxing.EncodeHintType]interface{}
+		if c.QRLevel != nil {
+			level = qrx.LibLevel(*c.QRLevel)
+		}
+		if c.QRMask != nil {
+			eh = map[gozxing.EncodeHintType]interface{}{gozxing.EncodeHintType_QR_MASK_PATTERN: *c.QRMask}
+		}
+		code, err := encoder.Encoder_encode(c.Content, level, eh)
 		if err != nil {
 			return fmt.Errorf("hx: %v", err)
 		}
-		bits := imgx.Transpose(qrx.ByteMatrixToBits(code.GetMatrix()))
+		if c.QRMask != nil && code.GetMaskPattern() != *c.QRMask {
+			return fmt.Errorf("hx: mask hint not applied")
+		}
+		desc += fmt.Sprintf(" level=%v mask=%d version=%d", level, code.GetMaskPattern(), code.GetVersion().GetVersionNumber())
+		upright := qrx.ByteMatrixToBits(code.GetMatrix())
+		bits := imgx.Transpose(upright)
 		res, err2 := decoder.NewDecoder().Decode(bits, nil)
 		if err2 != nil {
 			return fmt.Errorf("transposed QR module matrix not decoded: %v [%s]", err2, desc)
@@ -111,6 +127,39 @@ func check(raw json.RawMessage) error {
 		md, ok := res.GetOther().(*decoder.QRCodeDecoderMetaData)
 		if !ok || md == nil || !md.IsMirrored() {
 			return fmt.Errorf("transposed QR module matrix decoded but not flagged as mirrored [%s]", desc)
+		}
+		if c.Scale < 2 {
+			return nil
+		}
+		// image level: the mirrored picture is read with the same content, and its result points are
+		// those of the upright picture reflected (bottom-left and top-right keep their meaning)
+		read := func(m *gozxing.BitMatrix) (*gozxing.Result, error) {
+			img := imgx.Pad(imgx.Scale(m, c.Scale), c.Pad[0], c.Pad[1], c.Pad[2], c.Pad[3])
+			bmp, _ := gozxing.NewBinaryBitmapFromImage(img)
+			return qrcode.NewQRCodeReader().Decode(bmp, nil)
+		}
+		c.Pad[0], c.Pad[1] = c.Pad[0]+4*c.Scale, c.Pad[0]+4*c.Scale // same left and top padding: the transpose of the picture is the picture of the transpose
+		c.Pad[2], c.Pad[3] = c.Pad[0], c.Pad[0]
+		ru, eu := read(upright)
+		rm, em := read(imgx.Transpose(upright)) // a fresh transpose: the decoder above unmasks and mirrors its argument in place
+		if eu != nil || em != nil {
+			if eu == nil && em != nil && isReaderException(em) {
+				return fmt.Errorf("upright picture read, mirrored picture not read: %v [%s]", em, desc)
+			}
+			return nil
+		}
+		if rm.GetText() != c.Content || ru.GetText() != c.Content {
+			return fmt.Errorf("MISREAD: mirrored picture read as %q, upright as %q [%s]", rm.GetText(), ru.GetText(), desc)
+		}
+		pu, pm := ru.GetResultPoints(), rm.GetResultPoints()
+		if len(pu) != len(pm) {
+			return fmt.Errorf("upright read has %d result points, mirrored read %d [%s]", len(pu), len(pm), desc)
+		}
+		tol := 1.5 * float64(c.Scale)
+		for i := range pu {
+			if math.Abs(pm[i].GetX()-pu[i].GetY()) > tol || math.Abs(pm[i].GetY()-pu[i].GetX()) > tol {
+				return fmt.Errorf("result point %d of the mirrored read is (%.1f,%.1f), the reflection of the upright read's point %d is (%.1f,%.1f): the corner order was not corrected for mirroring [%s]", i, pm[i].GetX(), pm[i].GetY(), i, pu[i].GetY(), pu[i].GetX(), desc)
+			}
 		}
 		return nil
 	}
@@ -360,6 +409,29 @@ func TestCheck(t *testing.T) {
 				t.Fatalf("%v", err)
 			}
 		})
+		// every (level, mask) pair transposed, with module matrices of several versions and the image path
+		{
+			rng := hx.NewRng(c.Seed("transposed_formats", 0))
+			idx := 0
+			for rep := 0; rep < c.N(2, 12); rep++ {
+				for lv := 0; lv < 4; lv++ {
+					for mk := 0; mk < 8; mk++ {
+						idx++
+						if !c.Mine(idx) {
+							continue
+						}
+						l, m := lv, mk
+						cs := Case{Sym: "QR", Positive: "transpose", Scale: 1 + (idx+rep)%3, QRLevel: &l, QRMask: &m}
+						cs.Content, cs.Canonical = content("QR", rng)
+						raw, _ := json.Marshal(cs)
+						c.Note("positive_qr_transposed_all_formats", fmt.Sprintf("level=%d;mask=%d;image_path=%v", lv, mk, cs.Scale >= 2), true, hx.Hash(raw), func() any { return cs })
+						if !c.Enum("positive_qr_transposed_all_formats", "pose", cs, nil) {
+							break
+						}
+					}
+				}
+			}
+		}
 		c.Rapid("positive_qr_transposed", c.N(400, 4000), func(t *rapid.T) {
 			rng := hx.NewRng(rapid.Uint64().Draw(t, "content"))
 			cs := Case{Sym: "QR", Positive: "transpose", Scale: 1}
